@@ -39,6 +39,8 @@ type c15env struct {
 	addrs []string
 	last  *svc.State // state after the previous call
 	seq   int
+	// firstSeen: when an awaiting cache entry (address|hash) was first observed
+	firstSeen map[string]time.Time
 }
 
 // shortKeyAddress is a well formed address (valid version and checksum) of a key that is not 32 bytes long.
@@ -89,6 +91,9 @@ func (e *c15env) call(svcName, rpc, shape string, mayChange bool, f func() (any,
 	if before == nil {
 		before, _ = e.rig.State(e.addrs)
 	}
+	if before != nil {
+		e.noteAwaiting(before)
+	}
 	var err error
 	var panicked any
 	var stack string
@@ -113,6 +118,9 @@ func (e *c15env) call(svcName, rpc, shape string, mayChange bool, f func() (any,
 	}
 	r.Nontriv(fmt.Sprintf("%s.%s/%s/%s", svcName, rpc, shape, outcome))
 	after, derr := e.rig.State(e.addrs)
+	if after != nil {
+		e.noteAwaiting(after)
+	}
 	if derr != nil || before == nil {
 		r.Inconc("state snapshot failed")
 		e.last = nil
@@ -123,7 +131,10 @@ func (e *c15env) call(svcName, rpc, shape string, mayChange bool, f func() (any,
 		time.Sleep(3 * time.Millisecond)
 		after2, _ := e.rig.State(e.addrs)
 		if after2 != nil {
-			if ok, why := svc.SameOrOnlyTipsDropped(before, after2); !ok && after2.Whole == after.Whole {
+			if only, gone := svc.OnlyAwaitingRemoved(before, after2); only && e.allOld(gone) {
+				// the awaiting cache drops entries five minutes after they were saved: not an effect of this request
+				r.Count("c15_awaiting_entries_expired_during_a_call", len(gone))
+			} else if ok, why := svc.SameOrOnlyTipsDropped(before, after2); !ok && after2.Whole == after.Whole {
 				r.Violate("C15", fmt.Sprintf("rejected-request-changed-state/%s.%s", svcName, rpc), fmt.Sprintf("%s.%s returned %v for request shape [%s] but ledger / awaiting cache / peer table changed: %s", svcName, rpc, err, shape, why), map[string]any{"service": svcName, "rpc": rpc, "shape": shape})
 			} else if why == "tips dropped" {
 				r.Count("c15_refused_requests_that_dropped_invalid_tips", 1)
@@ -135,6 +146,31 @@ func (e *c15env) call(svcName, rpc, shape string, mayChange bool, f func() (any,
 	if e.seq%997 == 1 {
 		r.Sample(10, map[string]any{"service": svcName, "rpc": rpc, "request_shape": shape, "outcome": outcome})
 	}
+}
+
+// noteAwaiting remembers when each awaiting cache entry was first observed (monotonic clock).
+func (e *c15env) noteAwaiting(s *svc.State) {
+	if e.firstSeen == nil {
+		e.firstSeen = map[string]time.Time{}
+	}
+	now := time.Now()
+	for k := range s.Await {
+		if _, ok := e.firstSeen[k]; !ok {
+			e.firstSeen[k] = now
+		}
+	}
+}
+
+// allOld: every listed entry was first observed at least 4.5 minutes ago (the cache keeps entries for 5 minutes and
+// sweeps every 3): its disappearance is expiry. Younger entries are never excused.
+func (e *c15env) allOld(keys []string) bool {
+	for _, k := range keys {
+		t, ok := e.firstSeen[k]
+		if !ok || time.Since(t) < 270*time.Second {
+			return false
+		}
+	}
+	return true
 }
 
 func firstRepoFrame() string {
@@ -740,8 +776,8 @@ func c15WireMutation(e *c15env, n int) {
 func init() {
 	core.Register(&core.Check{
 		Spec: core.Spec{
-			Prop: "C15",
-			Rule: "Every handler of the notary, gossip and webhooks services (built through the hooks on one real node with real ledger, caches, challenge provider, juggler and stub peers) is called directly under recover(). Request shapes: for SignedHash requests (Reject, Saved, Balance, Waiting, TransactionsInDAG, GetVertex, Webhooks) the full product of address {empty, junk, valid, valid-checksum address of a 16/33 byte key, long} x data {nil, empty, 1, 31, 32, 33, 64, 1 MiB, own address, challenge / known hash} x hash {nil..64, the right digest} x signature {nil..64, the right signature}; for Transaction requests (Propose, Confirm, GossipTrx) and Vertex requests (GossipVrx) every field one at a time with the same shape classes (sub-messages nil/empty/valid), sampled pairs, stale and re-signed with the real key so that code behind the signature check is reached, combined with gossiper lists {nil, [empty], [valid], short/nil/long digest, short-key address, short signature, 300 entries}; ConnectionData (Announce, Discover) as a product. Client side: the missing-parent pull with peers answering GetVertex with shaped vertices, and the DAG sync against an in-memory (bufconn) peer streaming shaped vertices. Plus PRNG structural mutation of serialised valid requests (kept when proto.Unmarshal accepts them); this is not coverage guided. Verdicts: a recovered panic, or a worker crash (panic in a goroutine the handler started, attributed through the journal) is a violation; for a call that returned an error the digest of ledger snapshot (without the orphan buffer), awaiting listings of all known addresses and peer table must be unchanged. Non-trivial = every call; distinct by (service.rpc, shape, outcome).",
+			Prop:        "C15",
+			Rule:        "Every handler of the notary, gossip and webhooks services (built through the hooks on one real node with real ledger, caches, challenge provider, juggler and stub peers) is called directly under recover(). Request shapes: for SignedHash requests (Reject, Saved, Balance, Waiting, TransactionsInDAG, GetVertex, Webhooks) the full product of address {empty, junk, valid, valid-checksum address of a 16/33 byte key, long} x data {nil, empty, 1, 31, 32, 33, 64, 1 MiB, own address, challenge / known hash} x hash {nil..64, the right digest} x signature {nil..64, the right signature}; for Transaction requests (Propose, Confirm, GossipTrx) and Vertex requests (GossipVrx) every field one at a time with the same shape classes (sub-messages nil/empty/valid), sampled pairs, stale and re-signed with the real key so that code behind the signature check is reached, combined with gossiper lists {nil, [empty], [valid], short/nil/long digest, short-key address, short signature, 300 entries}; ConnectionData (Announce, Discover) as a product. Client side: the missing-parent pull with peers answering GetVertex with shaped vertices, and the DAG sync against an in-memory (bufconn) peer streaming shaped vertices. Plus PRNG structural mutation of serialised valid requests (kept when proto.Unmarshal accepts them); this is not coverage guided. Verdicts: a recovered panic, or a worker crash (panic in a goroutine the handler started, attributed through the journal) is a violation; for a call that returned an error the digest of ledger snapshot (without the orphan buffer), awaiting listings of all known addresses and peer table must be unchanged. Non-trivial = every call; distinct by (service.rpc, shape, outcome).",
 			Assumptions: []string{"a request is never a nil message (gRPC never delivers one); repeated fields never hold nil elements (not producible by decoding)", "the orphan buffer is not part of 'the ledger': a vertex arriving before its parent is reported as an error and parked"},
 			MinEvals:    3000, MinNontriv: 500,
 		},
